@@ -149,7 +149,8 @@ def run(ctx):
         add('antisymmetric_canonical_form', '(rows_orthonormal %s %s && mat_close %s (mmul (mmul %s %s) (mtrans %s)) %s)' % (T2, cmat(O), T2, cmat(O), cmat(A), cmat(O), cmat(can)), {'call': 'antisymmetric_canonical_form', 'A': repr(np.round(A, 12).tolist())}, key=repr(A.tolist()))
     # Slater determinants: b+_1 .. b+_eta |vac> up to a phase (exact minors, numerically)
     for i in range(N(30, 200)):
-        n = rng.choice([1, 2, 3, 4]); eta = rng.randint(1, n)
+        n = rng.choice([1, 2, 3, 4, 4, 5, 5]); eta = rng.randint(1, n)
+        if i % 3 == 0: n = rng.choice([4, 5, 6]); eta = rng.randint(2, n - 2)      # layers with several simultaneous rotations
         Z = rs.randn(n, n) + 1j * rs.randn(n, n)
         if rng.random() < 0.3: Z = rs.randn(n, n).astype(complex)
         Qf, _ = np.linalg.qr(Z); Q = Qf[:eta, :] if rng.random() < 0.7 else np.eye(n, dtype=complex)[rng.sample(range(n), eta)]
